@@ -29,6 +29,17 @@ def rec_event(rng, user, age):
 def rec_scenarios(rng, n, retention):
     scen = [["r reset", "r rec 61 web 30", "r rec 61 sp 68747470733a2f2f737031 20",
              "r rec 61 sp 68747470733a2f2f737032 10", "r snap", "r save", "r load -", "r snap"]]
+    # an automation account with far more events inside the retention than any per-user bound someone might
+    # introduce (100, 1000, 2000, 4096 …) next to an ordinary user: the whole history must survive the restart
+    big = ["r reset"]
+    nbig = 5000
+    for k in range(nbig):
+        age = (retention - 200000) * (nbig - k) // nbig
+        if k % 500 == 250:
+            big.append(rec_event(rng, "61", age))
+        big.append(rec_event(rng, "626f74", age))
+    big += ["r snap", "r save", "r load -", "r snap", "r snap", "r expire -", "r snap", "r snap", "r save", "r load -", "r snap"]
+    scen.append(big)
     while len(scen) < n:
         ops = ["r reset"]
         if rng.random() < 0.1:
@@ -57,6 +68,23 @@ def rec_scenarios(rng, n, retention):
                 ops += ["r snap", "r expire -", "r snap"]
         scen.append(ops)
     return scen
+
+
+def digest(line):
+    """long snapshot lines are compared (and quoted in messages) by length and hash"""
+    if len(line) <= 1500:
+        return line
+    import hashlib
+    return "%s …[%d characters, sha1 %s]" % (line[:160], len(line), hashlib.sha1(line.encode()).hexdigest()[:16])
+
+
+def hist(dl):
+    """`fn/fo` → readable: the whole list when short, else its length and both ends"""
+    l = dl.split("/")[0]
+    evs = [] if l == "-" else l.split("|")
+    if len(evs) <= 12:
+        return "[%s]" % l
+    return "[%d events: %s | … | %s]" % (len(evs), "|".join(evs[:2]), "|".join(evs[-2:]))
 
 
 def snap_map(line):
@@ -89,7 +117,8 @@ def run_recorder(ctx, facts, scen):
             mops.append(o)
             impl_cmp.append(l)
     model = c.run_driver(ctx, "model", mops)
-    c.diff_streams(ctx, "eventrecorder record/snapshot/save/load/expire vs KM.Events recorder model", mops, impl_cmp, model)
+    c.diff_streams(ctx, "eventrecorder record/snapshot/save/load/expire vs KM.Events recorder model", mops,
+                   [digest(l) for l in impl_cmp], [digest(l) for l in model])
     # judge every save→load pair and every expire with the theorem predicates
     jops, jmeta = [], []
     saved = None
@@ -154,11 +183,13 @@ def run_recorder(ctx, facts, scen):
         if v != "ok":
             first = scen[sc]
             upto = [o for k, o in enumerate(ops) if owner[k] == sc and k <= i + 1]
-            key = "loadEvents-order" if v == "viol reversed" else "recorder-%s-%s" % (kind, v.replace("viol ", ""))
-            c.add_violation(ctx, key, "%s of user %s at now=%s: history before=[%s] after=[%s]: %s" % (
-                "save+restart" if kind == "saveload" else "expireOldEvents", u, now, b.split("/")[0], a.split("/")[0], v),
-                {"stream": "r", "ops": upto, "user": u, "before": b, "after": a, "now": now, "judge": v})
+            key = "loadEvents-order" if v == "viol reversed" else "recorder-%s-%s" % (kind, v.replace("viol ", "").split("=")[0])
+            c.add_violation(ctx, key, "%s of user %s at now=%s: history before=%s after=%s: %s" % (
+                "save+restart" if kind == "saveload" else "expireOldEvents", u, now, hist(b), hist(a), v),
+                {"stream": "r", "ops": upto, "user": u, "before": b if len(b) < 4000 else hist(b),
+                 "after": a if len(a) < 4000 else hist(a), "now": now, "judge": v})
     stats["judged"] = len(jops)
+    stats["longest_history_saved_and_reloaded"] = max([0] + [len(m[4].split("/")[0].split("|")) for m in jmeta if m[0] == "saveload"])
     return stats
 
 
